@@ -304,8 +304,38 @@ package twig
 // truthy (floats are outside this family: uninterpreted).
 //@ define truthySpec(V, R) (V == nil ==> !R) && (typeIs(V, "bool") ==> R == unboxAs(V, "bool")) && (typeIs(V, "int") ==> R == (unboxAs(V, "int") != 0)) && (typeIs(V, "int8") ==> R == (unboxAs(V, "int8") != 0)) && (typeIs(V, "int16") ==> R == (unboxAs(V, "int16") != 0)) && (typeIs(V, "int32") ==> R == (unboxAs(V, "int32") != 0)) && (typeIs(V, "int64") ==> R == (unboxAs(V, "int64") != 0)) && (typeIs(V, "uint") ==> R == (unboxAs(V, "uint") != 0)) && (typeIs(V, "uint8") ==> R == (unboxAs(V, "uint8") != 0)) && (typeIs(V, "uint16") ==> R == (unboxAs(V, "uint16") != 0)) && (typeIs(V, "uint32") ==> R == (unboxAs(V, "uint32") != 0)) && (typeIs(V, "uint64") ==> R == (unboxAs(V, "uint64") != 0)) && (typeIs(V, "string") ==> R == (unboxAs(V, "string") != "")) && (typeIs(V, "[]interface{}") ==> R == (len(unboxAs(V, "[]interface{}")) > 0)) && (typeIs(V, "map[string]interface{}") ==> R == (len(unboxAs(V, "map[string]interface{}")) > 0)) && (V != nil && !typeIs(V, "bool") && !typeIs(V, "int") && !typeIs(V, "int8") && !typeIs(V, "int16") && !typeIs(V, "int32") && !typeIs(V, "int64") && !typeIs(V, "uint") && !typeIs(V, "uint8") && !typeIs(V, "uint16") && !typeIs(V, "uint32") && !typeIs(V, "uint64") && !typeIs(V, "string") && !typeIs(V, "[]interface{}") && !typeIs(V, "map[string]interface{}") && !typeIs(V, "float32") && !typeIs(V, "float64") && (ufi_ikind(V) == 17 || ufi_ikind(V) == 21 || ufi_ikind(V) == 23) ==> R == (ufi_ilen(V) > 0))
 //@ func (*RenderContext).toBool props: C09
+//@   function
 //@   ensures truthySpec(val, ret)
 //@ func toBool props: C09
 //@   ensures truthySpec(value, ret)
 //@ func isEmptyValue props: C19 C09
 //@   ensures truthySpec(v, !ret)
+
+// ---------------------------------------------------------------- control flow (C09)
+// ghost trace of abstract events (which node was evaluated/rendered in which context, in order)
+//@ ghost tr Tr
+// the event of rendering / evaluating a node is named, not interpreted (abstraction, no assumption)
+//@ iface Node.Render
+//@   assumed
+//@   ghostset tr emitRender(old(tr), recv, ctx)
+//@ func (*RenderContext).EvaluateExpression
+//@   assumed
+//@   ghostset tr emitEval(old(tr), node, ctx)
+//@   ensures err == nil ==> ret0 == evalRes(old(tr), node, ctx)
+
+// if/elseif/else renders exactly one branch: the body of the first truthy condition (conditions are
+// evaluated in order, none after it), otherwise the else branch, otherwise nothing.
+//@ define ifConds() elemsArr(n.conditions), off(n.conditions)
+//@ func (*IfNode).Render props: C09
+//@   flag rely_tree yes
+//@   requires len(n.bodies) == len(n.conditions)
+//@   loop 1 invariant[C09] 0 - 1 <= rangeindex && rangeindex < len(n.conditions) && tr == evalsUpTo(old(tr), elemsArr(n.conditions), off(n.conditions), rangeindex + 1, ctx) && falsyUpTo(old(tr), elemsArr(n.conditions), off(n.conditions), rangeindex + 1, ctx)
+//@   loop 2 invariant[C09] 0 <= i && i < len(n.conditions) && falsyUpTo(old(tr), elemsArr(n.conditions), off(n.conditions), i, ctx) && fn_toBool_0(ctx, evalRes(evalsUpTo(old(tr), elemsArr(n.conditions), off(n.conditions), i, ctx), n.conditions[i], ctx))
+//@   loop 2 invariant[C09] 0 - 1 <= rangeindex && rangeindex < len(n.bodies[i]) && tr == rendersUpTo(evalsUpTo(old(tr), elemsArr(n.conditions), off(n.conditions), i + 1, ctx), elemsArr(n.bodies[i]), off(n.bodies[i]), rangeindex + 1, ctx)
+//@   loop 3 invariant[C09] falsyUpTo(old(tr), elemsArr(n.conditions), off(n.conditions), len(n.conditions), ctx)
+//@   loop 3 invariant[C09] 0 - 1 <= rangeindex && rangeindex < len(n.elseBranch) && tr == rendersUpTo(evalsUpTo(old(tr), elemsArr(n.conditions), off(n.conditions), len(n.conditions), ctx), elemsArr(n.elseBranch), off(n.elseBranch), rangeindex + 1, ctx)
+//@   ensures[C09] err == nil ==> (exists k int :: 0 <= k && k < len(n.conditions) && falsyUpTo(old(tr), elemsArr(n.conditions), off(n.conditions), k, ctx) && fn_toBool_0(ctx, evalRes(evalsUpTo(old(tr), elemsArr(n.conditions), off(n.conditions), k, ctx), n.conditions[k], ctx)) && tr == rendersUpTo(evalsUpTo(old(tr), elemsArr(n.conditions), off(n.conditions), k + 1, ctx), elemsArr(n.bodies[k]), off(n.bodies[k]), len(n.bodies[k]), ctx)) || (falsyUpTo(old(tr), elemsArr(n.conditions), off(n.conditions), len(n.conditions), ctx) && tr == rendersUpTo(evalsUpTo(old(tr), elemsArr(n.conditions), off(n.conditions), len(n.conditions), ctx), elemsArr(n.elseBranch), off(n.elseBranch), len(n.elseBranch), ctx))
+// the node invariant IfNode.Render relies on is established where the node is built
+//@ func (*Parser).parseIf props: C09
+//@   loop 1 invariant[C09] len(conditions) == len(bodies)
+//@   ensures[C09] err == nil ==> typeIs(ret0, "*IfNode") && len(unboxAs(ret0, "*IfNode").bodies) == len(unboxAs(ret0, "*IfNode").conditions)
